@@ -1353,7 +1353,16 @@ class Container:
         a = numpy.array([[0., 0.], [0., 0.]])
         b = numpy.array([0., 0.])
 
-        if numerator == 'mol':
+        if solute.is_enzyme():
+            # an enzyme is stored in activity units: U per mL of the source (and of the solvent container)
+            u_x = source.contents[solute] / Unit.convert_from_storage(source.volume, 'mL')
+            u_y = solvent.contents.get(solute, 0) / Unit.convert_from_storage(solvent.volume, 'mL') \
+                if isinstance(solvent, Container) else 0
+            per_unit = {'U': 1., 'g': 1. / solute.specific_activity, 'L': 1. / solute.density / 1000.}
+            if numerator not in per_unit:
+                raise ValueError(f"{solute.name} cannot be measured in {numerator}.")
+            top = numpy.array([u_x * per_unit[numerator], u_y * per_unit[numerator]])
+        elif numerator == 'mol':
             top = numpy.array([m_x / 1000., m_y / 1000.])
         elif numerator == 'g':
             top = numpy.array([m_x * mw_s / 1000., m_y * mw_s / 1000.])
